@@ -27,16 +27,20 @@ func heavyDoc(rows, n int) map[string]any {
 
 func heavySizes(c *Ctx) [][2]int {
 	if c.Tier == "thorough" {
-		return [][2]int{{700, 100000}, {3000, 100000}, {12000, 100000}}
+		// (one query is one case, and a case must stay well below the 120 s watchdog: about
+		// 100 ns per node visit under coverage instrumentation)
+		return [][2]int{{700, 100000}, {1200, 100000}, {2000, 100000}}
 	}
 	return [][2]int{{700, 100000}}
 }
 
-func heavyN(c *Ctx) int { return len(heavySizes(c)) }
+// one case per (size, query): at most 4 queries per property
+func heavyN(c *Ctx) int { return len(heavySizes(c)) * 5 }
 
 func heavyRun(prop string) func(c *Ctx, idx int) {
 	return func(c *Ctx, idx int) {
-		sz := heavySizes(c)[idx]
+		sz := heavySizes(c)[idx/5]
+		which := idx % 5
 		rows, n := sz[0], sz[1]
 		doc := heavyDoc(rows, n)
 		type q struct{ expr, want string }
@@ -53,6 +57,9 @@ func heavyRun(prop string) func(c *Ctx, idx int) {
 				qs = append(qs, q{"[y[?[*].a], y[?[*].b]] == [y[?[*].a], y[?[*].b]][*]", "true"}, q{"(x[*][?@ > `7`])[0] == (x[*][?@ > `7`] | [0])", "true"}, q{"x[?[*].a].c == (x[?[*].a] | [*].c)", "true"})
 			}
 		default: // C18: two heavy stages in one pipe against the same stages in two searches
+			if which != 0 {
+				return
+			}
 			e1 := "{n: length(y[?[*].a]), x: x, y: y}"
 			e2 := "[n, length(y[?[*].b]), length(x)]"
 			// (r1 shares the rows of the document; it is handed back as it is - converting it for
@@ -85,7 +92,10 @@ func heavyRun(prop string) func(c *Ctx, idx int) {
 			c.Nontrivial("heavy", fmt.Sprint(rows))
 			return
 		}
-		for _, x := range qs {
+		for qi, x := range qs {
+			if qi != which {
+				continue
+			}
 			l := c.LibSearch(x.expr, doc)
 			got := strings.ReplaceAll(ShowOut(l), " ", "")
 			if l.Panic != nil || l.Err != nil || got != x.want {
